@@ -40,6 +40,8 @@ def scenarios(tier):
     for n0, single, w, pat in cfgs:
         out.append(Scenario('hist', n0=n0, singleton=single, w=w, pat=pat, max_age=0, tier=tier))
     out.append(Scenario('hist', n0=2, singleton=False, w=0.0, pat='obedient', max_age=2, tier=tier))
+    # dense periodic checks (0.3 s): a kill's 0.1 s polling loop and the slow workers' deaths straddle check ticks
+    out.append(Scenario('hist', n0=2, singleton=False, w=0.0, pat='slow', max_age=0, tier=tier, tick=0.3))
     return out
 
 
@@ -97,7 +99,8 @@ def run(scn, ch):
         opts = dict(graceful_timeout=G, warmup_delay=scn.w, singleton=scn.singleton)
         if scn.max_age:
             opts.update(max_age=scn.max_age, max_age_variance=1)
-        world = World(ch, [WSpec('a', numprocesses=scn.n0, behaviours=pattern(scn.pat), **opts)])
+        world = World(ch, [WSpec('a', numprocesses=scn.n0, behaviours=pattern(scn.pat), **opts)],
+                      check_delay=scn.p.get('tick', 1.0))
         if scn.max_age:
             world.randint_hook = lambda a, b: (a, b)[world.ex.choose('randint', ['min', 'max'], cost=1)]
         return world
